@@ -488,6 +488,7 @@ var selPalette = []*corev1.NodeSelector{
 var labelPalette = []string{"-", "-", "zone=a", "zone=b", "zone=a,gpu=1", "rack=7", "zone=a,rack=3", "zone=c,gpu=", "rack=12,zone=b", "in=notin,zone=a", "rack=x"}
 
 type gen struct {
+	profile string
 	rng   *rand.Rand
 	w     *world
 	o     *Out
@@ -513,7 +514,7 @@ func (g *gen) do(line string) {
 				g.stat["obs:"+m]++
 			}
 		}
-		if strings.Contains(head, "patches=[n") {
+		if strings.Contains(head, "patches=[n") || strings.Contains(head, "patches=[m") {
 			g.stat["obs:patch"]++
 		}
 	}
@@ -582,6 +583,29 @@ func (g *gen) presetFor(labels string) string {
 		}
 	}
 	return "-"
+}
+
+// predictLeading: the leading part (IPv4 only) of what the controller would assign to node n right now, when the
+// ClusterCIDR that would serve it is dual-stack; "" otherwise.
+func (g *gen) predictLeading(n string) string {
+	w := g.w
+	if w.h == nil {
+		return ""
+	}
+	o, ex, _ := w.nodeInf.inf.indexer.GetByKey(n)
+	if !ex {
+		return ""
+	}
+	l, err := w.h.OrderedMatching(o.(*corev1.Node), true)
+	if err != nil || len(l) == 0 || l[0].IPv4CIDRSet == nil || l[0].IPv6CIDRSet == nil {
+		return ""
+	}
+	_, cu, _, _ := l[0].IPv4CIDRSet.VerifState()
+	blk, err := l[0].IPv4CIDRSet.VerifIndexToCIDRBlock(cu)
+	if err != nil {
+		return ""
+	}
+	return canon.TokNet(blk)
 }
 
 // firstBlocks proposes what the controller itself would hand out next from some planned ClusterCIDR
@@ -678,8 +702,37 @@ func (g *gen) alignedEverywhere(c canon.Cidr) bool {
 	return true
 }
 
+// orderSel: selectors all satisfied by the label set `orderLabels`, with 0, 1 or 2 requirements
+var orderLabels = "zone=a,gpu=1,rack=7"
+var orderSel = []*corev1.NodeSelector{
+	nil, nil, sel(rq("zone", "In", "a")), sel(rq("zone", "In", "a", "b")), sel(rq("zone", "NotIn", "b")), sel(rq("gpu", "Exists")),
+	sel(rq("rack", "Gt", "5")), sel(rq("rack", "Lt", "10")), sel(rq("zone", "In", "a"), rq("gpu", "Exists")), sel(rq("rack", "Gt", "5"), rq("rack", "Lt", "10")),
+	sel(rq("zone", "In", "a"), rq("rack", "Gt", "5")), {NodeSelectorTerms: []corev1.NodeSelectorTerm{}},
+}
+var orderRanges = []rangeChoice{
+	{"10.0.0.0/24", "", 6}, {"10.0.1.0/24", "", 6}, {"10.0.2.0/24", "", 7}, {"10.0.3.0/25", "", 6}, {"10.0.4.0/26", "", 4}, {"10.0.5.0/27", "", 4},
+	{"10.0.6.0/28", "", 4}, {"10.0.7.0/26", "", 5}, {"10.0.8.0/25", "", 5}, {"10.0.9.0/27", "", 5},
+}
+
 func (g *gen) pickPlans() {
 	rng := g.rng
+	if g.profile == "order" {
+		names := []string{"a", "b", "c", "d", "e"}
+		n := 3 + rng.Intn(3)
+		seen := map[string]bool{}
+		for len(g.plans) < n {
+			rc := orderRanges[rng.Intn(len(orderRanges))]
+			s := orderSel[rng.Intn(len(orderSel))]
+			key, _ := ipam.VerifNodeSelectorKey(&v1.ClusterCIDR{Spec: v1.ClusterCIDRSpec{NodeSelector: s}})
+			sig := key + "/" + rc.v4 + "/" + strconv.Itoa(rc.hb)
+			if seen[sig] {
+				continue
+			}
+			seen[sig] = true
+			g.plans = append(g.plans, ccPlan{names[len(g.plans)], rc.hb, rc.v4, rc.v6, s})
+		}
+		return
+	}
 	n := 1 + rng.Intn(5)
 	names := []string{"a", "b", "c", "d", "e"}
 	seen := map[string]bool{}
@@ -804,12 +857,14 @@ func (g *gen) randWsList() string {
 
 // one history
 func genHistory(o *Out, rng *rand.Rand, id int, length int, profile string) []string {
-	g := &gen{rng: rng, w: newWorld(), o: o, stat: o.Stats}
+	g := &gen{rng: rng, w: newWorld(), o: o, stat: o.Stats, profile: profile}
 	o.Emit(fmt.Sprintf("hist %d", id), "hist")
 	g.pickPlans()
 	created := map[string]bool{}
 	// initial population
-	for _, p := range g.plans {
+	perm := rng.Perm(len(g.plans))
+	for _, pi := range perm {
+		p := g.plans[pi]
 		if rng.Intn(3) > 0 {
 			g.do(ccLine(p))
 			created[p.name] = true
@@ -818,13 +873,21 @@ func genHistory(o *Out, rng *rand.Rand, id int, length int, profile string) []st
 			}
 		}
 	}
-	for _, n := range g.nodeNames()[:rng.Intn(4)] {
+	initialNodes := rng.Intn(4)
+	if profile == "order" {
+		initialNodes = 0
+	}
+	for _, n := range g.nodeNames()[:initialNodes] {
 		cs := "-"
 		ls := labelPalette[rng.Intn(len(labelPalette))]
 		if rng.Intn(2) == 0 {
 			cs = g.presetFor(ls)
 		}
 		g.do(fmt.Sprintf("nodeAdd %s %s %s", n, ls, cs))
+	}
+	if profile == "order" {
+		g.orderHistory(length)
+		return g.lines
 	}
 	g.do(g.bootLine(profile == "svc" || rng.Intn(8) == 0))
 	for k := 0; k < length && !g.dead; k++ {
@@ -884,8 +947,17 @@ func genHistory(o *Out, rng *rand.Rand, id int, length int, profile string) []st
 						}
 					}
 					if len(free) > 0 {
-						if cs := g.firstBlocks(); cs != "-" {
-							g.do(fmt.Sprintf("nodeSetCIDRs %s %s", free[rng.Intn(len(free))], cs))
+						n := free[rng.Intn(len(free))]
+						cs := g.firstBlocks()
+						if pv := g.predictLeading(n); pv != "" && rng.Intn(2) == 0 {
+							cs = pv
+						}
+						if cs != "-" {
+							g.do(fmt.Sprintf("nodeSetCIDRs %s %s", n, cs))
+							// ... and the node's own item, already queued, runs while the cache catches up
+							if w.h != nil && w.nodeQ.pending[n] && rng.Intn(3) > 0 {
+								g.do(fmt.Sprintf("procNode %s 1 %s", n, g.randWs(3)))
+							}
 						}
 					}
 				}
@@ -934,6 +1006,48 @@ func genHistory(o *Out, rng *rand.Rand, id int, length int, profile string) []st
 		g.drain()
 	}
 	return g.lines
+}
+
+// orderHistory: many nodes with one label set against 3..5 ClusterCIDRs that all select them, created in
+// arbitrary order, served until the higher-priority ones are exhausted (C07).
+func (g *gen) orderHistory(length int) {
+	rng := g.rng
+	g.do("boot - - -")
+	nodeNo := 0
+	for k := 0; k < length && !g.dead; k++ {
+		w := g.w
+		x := rng.Intn(100)
+		switch {
+		case x < 12:
+			p := g.plans[rng.Intn(len(g.plans))]
+			g.do(ccLine(p))
+		case x < 22:
+			if st := g.stale("cc"); len(st) > 0 {
+				g.do("deliverCC " + st[rng.Intn(len(st))])
+			}
+		case x < 34:
+			if ks := w.ccQ.keys(); len(ks) > 0 {
+				g.do("procCC " + ks[rng.Intn(len(ks))] + " -")
+			}
+		case x < 52:
+			nodeNo++
+			g.do(fmt.Sprintf("nodeAdd m%d %s -", nodeNo, orderLabels))
+		case x < 70:
+			if st := g.stale("node"); len(st) > 0 {
+				g.do("deliverNode " + st[rng.Intn(len(st))] + " 0")
+			}
+		case x < 94:
+			if ks := w.nodeQ.keys(); len(ks) > 0 {
+				g.do("procNode " + ks[rng.Intn(len(ks))] + " 0 -")
+			}
+		case x < 97:
+			if ks := sortedMapKeys(w.nodes); len(ks) > 0 {
+				g.do("nodeDel " + ks[rng.Intn(len(ks))])
+			}
+		default:
+			g.do("boot - - -")
+		}
+	}
 }
 
 // drain: changes stop, writes succeed, everything pending is delivered and processed until nothing moves.
